@@ -11,6 +11,10 @@ static inline void vf_sched_point(const char *tag) { if (tag[0] == 'r' && !g_sch
 #define VF_SCHED_POINT(tag) vf_sched_point(tag)
 #endif
 #include "optkit.hpp"
+#include <condition_variable>
+#include <functional>
+#include <mutex>
+#include <thread>
 #if VMODE == 2
 #include <omp.h>
 #endif
@@ -168,6 +172,15 @@ template <int S> static void part_c(Ctx &c, long &id) {  // concurrent evaluate(
   }
 }
 #elif VMODE == 1
+// a pool of worker threads that exist BEFORE evaluate() is called (per-thread state set up inside the call -- floating-point control bits, thread-local
+// scratch -- does not reach them, unlike threads spawned inside the call)
+struct Pool {
+  std::vector<std::thread> th; std::mutex m; std::condition_variable cv, done; std::function<void(int)> job; int gen = 0, pending = 0, nw; bool stop = false;
+  explicit Pool(int n) : nw(n) { for (int w = 0; w < n; ++w) th.emplace_back([this, w] { int seen = 0; for (;;) { std::unique_lock<std::mutex> lk(m); cv.wait(lk, [&] { return stop || gen != seen; }); if (stop) return; seen = gen; auto j = job; lk.unlock(); j(w); lk.lock(); if (--pending == 0) done.notify_all(); } }); }
+  ~Pool() { { std::lock_guard<std::mutex> lk(m); stop = true; } cv.notify_all(); for (auto &t : th) t.join(); }
+  void run(const std::function<void(int)> &j) { std::unique_lock<std::mutex> lk(m); job = j; pending = nw; ++gen; cv.notify_all(); done.wait(lk, [&] { return pending == 0; }); }
+};
+struct PoolExec { Pool *p; template <class F> void operator()(int start, int end, F &&f) const { p->run([&](int w) { for (int i = start + w; i < end; i += p->nw) f(i); }); } };
 // (d) free-running pass under ThreadSanitizer: same thread bodies, no scheduler; any report aborts the process (exitcode)
 template <int S> static void part_d(Ctx &c, long &id) {
   const int reps = c.args.thorough() ? 60 : 20;
@@ -191,6 +204,18 @@ template <int S> static void part_d(Ctx &c, long &id) {
     std::vector<int> assign(N); for (int i = 0; i < N; ++i) assign[i] = i % 2; ThreadExec te{&assign, 2};
     for (int r = 0; r < reps; ++r) { typename Setup<S>::WS w; Eigen::VectorXd g; double cp = s.opt->evaluate(x, g, s.tc, s.wc, s.rc, &w, te); ++c.st.comparisons; if (!bits_equal(cp, c0) || !bits_equal(g.data(), g0.data(), g0.size())) { c.st.violate(unit, fmt("free-running threaded executor: %s N=%d differs from serial", order_name(S), N), {{"what", "free-running"}}); break; } }
     ++c.st.evaluations; ++c.st.nontrivial; c.st.seen(unit + order_name(S)); c.st.cls("(d) free-running threaded executor under TSan", reps); }
+  // pre-existing worker pool, ordinary and SUBNORMAL cost scale (running cost weight 1e-310, no energy term, two-cost overload): the entries of the
+  // gradient that only the running cost feeds are subnormal; they must be the serial ones bit for bit whichever thread integrates a segment
+  // (seeded change C12-m10: flush-to-zero mode switched on for the calling thread only)
+  for (int N : {3, 4}) for (int tiny = 0; tiny < 2; ++tiny) { long my = id++; if (!c.mine(my)) continue; std::string unit = fmt("d:%ld", my); if (!c.begin(unit)) continue;
+    Setup<S> s(N, 2, 0xff); Eigen::VectorXd x = s.xvec(0), g0; s.fresh(false); s.opt->setEnergyWeights(0.0);
+    RunCost<D> rc = RunCost<D>::mode(0); if (tiny) rc.ap = 1e-310; TimeCost tcz; tcz.mode = 0;
+    typename Setup<S>::WS w0; const double c0 = s.opt->evaluate(x, g0, tcz, rc, &w0, SerialExecutor());
+    Pool pool(2); PoolExec pe{&pool}; bool sub = false; for (int i = 0; i < g0.size(); ++i) sub = sub || (g0(i) != 0.0 && std::fabs(g0(i)) < 2.3e-308);
+    if (tiny && !sub) { c.st.violate(unit, "harness: the subnormal-scale configuration produced no subnormal gradient entry"); continue; }
+    for (int r = 0; r < reps; ++r) { typename Setup<S>::WS w; Eigen::VectorXd g; double cp = s.opt->evaluate(x, g, tcz, rc, &w, pe); ++c.st.comparisons;
+      if (!bits_equal(cp, c0) || g.size() != g0.size() || !bits_equal(g.data(), g0.data(), g0.size())) { c.st.violate(unit, fmt("pre-existing worker pool, %s cost scale: %s N=%d: cost/gradient differ from serial execution (cost %.17g vs %.17g)", tiny ? "subnormal" : "ordinary", order_name(S), N, cp, c0), {{"what", "pool-executor"}}); break; } }
+    ++c.st.evaluations; ++c.st.nontrivial; c.st.seen(unit + order_name(S)); c.st.cls("(d) pre-existing worker pool executor", reps); }
 }
 #endif
 
